@@ -75,9 +75,15 @@ class BlockingExecutor(Executor):
                 parent_value, self.context_value, info
             )
 
-        return self.complete_value(
-            field_definition.type, nodes, path, info, resolved
-        )
+        # A resolver error can also be raised while the value is completed,
+        # e.g. by a custom scalar or when iterating over a lazy list.
+        try:
+            return self.complete_value(
+                field_definition.type, nodes, path, info, resolved
+            )
+        except ResolverError as err:
+            self.add_error(err, path, node)
+            return None
 
     def complete_list_value(
         self,
